@@ -7,13 +7,17 @@ Tie of RTV.Model.Unit to the working tree:
                (a) `bind_dictionary` over the tables wired into every registered model's parser configuration ==
                    the model's `buildUnitMap` (whole bound map, order included);
                (b) real `NumberWithUnitParser.parse` on hand-built extract results `"7 <form>"` / `"<form> 7"` for every
-                   row == the model's `parseUnit`;  (c) unit-key assembly on seeded texts;  (d) ISO lookup; (e) compound
-                   amounts N + M/ratio against Decimal.
+                   row == the model's `parseUnit`;  (c) unit-key assembly on seeded texts;  (e) compound amounts: the REAL
+                   `BaseCurrencyParser.parse` -> `__merge_compound_unit` on hand-built compound extract results of every
+                   culture (15-digit boundary amounts, every ratio class incl. 5 / 4 / 20 / 10^8, SYS_NUM parts, unknown and
+                   fake-ISO main units, foreign fractions, several groups) == `RTV.Unit.mergeCompound` (`uc.merge`).
   pipeline     every (culture, entity type, unit, spelling) row of the prefix/suffix tables through
                recognize_currency/dimension/temperature/age with the property's own oracle: one entity spanning the
-               expression, unit = the row's canonical name (or, when an earlier row lists the same spelling, that row's —
-               the theorem `unitmap_lookup` says exactly which), value = what the number model gives for the numeral, ISO
-               code = the table's; every main/fraction pair of CurrencyFractionMapping × amounts.
+               expression, unit = the canonical name of the FIRST ROW OF THE TABLES (suffix table, then prefix table) that
+               lists the spelling — computed from the tables, not from the implementation's unit_map (`unitmap_lookup` is the
+               theorem that the bound map does the same), value = what the number model gives for the numeral, ISO
+               code = the table's; every main/fraction pair of CurrencyFractionMapping × amounts (value demanded to the 15
+               significant digits of the number model: `compound_precision_witness`).
 Rows that the unchanged tree already fails are listed one by one in known_findings.json (signature = the row)."""
 import multiprocessing as mp
 import os
@@ -25,10 +29,14 @@ from lib.common import cps, uncps
 
 PROP = 'C05'
 LEVEL = 'proof'
-PROPS_MODULES = ['RTV.Props.C05']
+PROPS_MODULES = ['RTV.Props.C05', 'RTV.Props.C05Compound']
 GEN = ['chartables']
 REQUIRED_THEOREMS = ['unitmap_lookup', 'unitmap_listed', 'key_assembly_suffix', 'key_assembly_prefix',
-                     'parse_suffix_unit', 'compound_value_exact',
+                     'parse_suffix_unit', 'parse_prefix_unit', 'iso_code_is_table_code', 'iso_fake_code_dropped',
+                     'iso_unlisted_is_none', 'currency_suffix_unit_and_iso',
+                     # RTV.Props.C05Compound: __merge_compound_unit on the Dec layer (15-digit context, every ratio)
+                     'compound_value_exact', 'fraction_quotient_exact', 'compound_precision_witness', 'merge_main_fraction',
+                     'compound_end_to_end', 'compound_cents_lost_witness',
                      # the value side (RTV.Unit.parseFull)
                      'parseFull_unit', 'parse_value_is_number_resolution', 'parse_half_adds_point_five',
                      'parse_half_concatenates_witness', 'extract_then_parse_value',
@@ -81,6 +89,20 @@ def rows_of(exc):
                 if f:
                     rows.append((kind, unit, f))
     return rows
+
+
+def first_listing(exc):
+    """spelling -> canonical name of the FIRST row, suffix table then prefix table, that lists it (rows with an empty key
+    are skipped, as bind_dictionary does) — read from the tables only"""
+    out = {}
+    for tbl in (exc.suffix_list, exc.prefix_list):
+        for unit, forms in (tbl or {}).items():
+            if not unit:
+                continue
+            for f in forms.strip().split('|'):
+                if f and f not in out:
+                    out[f] = unit
+    return out
 
 
 def numerals(culture, thorough):
@@ -143,12 +165,21 @@ def correspond(ctx):
             DictionaryUtility.bind_dictionary(t, rebound)
         same_source = (list(rebound.items()) == list(real.items()))
         if not same_source:
-            # fall back to a single pseudo-table reproducing the real map (each form bound to its unit, in order)
-            tables = [dict((u, u) for u in [])]
+            # the parser's unit_map is NOT what binding the suffix then the prefix table gives: the bind tie cannot run for
+            # this configuration — said in the evidence, never silently; the parse tie below still runs, on one pseudo-table
+            # that reproduces the real map (one row per bound spelling, in the map's order)
             ctx.notes.append('%s %s: parser unit_map is not suffix+prefix tables in that order; bind tie skipped' % (mt, cul))
+            ctx.extra.setdefault('unit_map_not_rebuilt_from_tables', []).append(
+                {'model_type': mt, 'culture': cul, 'bound_entries': len(real), 'rebound_entries': len(rebound),
+                 'first_difference': next((list(a) + list(b) for a, b in zip(real.items(), rebound.items()) if a != b), None)})
+            ctx.count('bind_dictionary tie skipped (unit_map not from the tables)', 1)
         tf = [str(len(tables))]
         for t in tables:
             tf += table_fields(t)
+        if not same_source:
+            tf = ['1', str(len(real))]
+            for form_, unit_ in real.items():
+                tf += [cps(unit_), cps(form_)]
         if same_source:
             lines.append('\t'.join(['bindall'] + tf))
             expect.append(';'.join(cps(k) + '=' + cps(v) for k, v in real.items()))
@@ -156,7 +187,7 @@ def correspond(ctx):
             ctx.count('bind_dictionary', 1)
         # (b) parse rows
         base_parser = parser if isinstance(parser, NumberWithUnitParser) else getattr(parser, 'number_with_unit_parser', None)
-        if base_parser is None or not same_source:
+        if base_parser is None:
             continue
         qs, exp_units = [], []
         for kind, unit, form in rows_of(exc):
@@ -204,7 +235,7 @@ def correspond(ctx):
                                        'unit': unit, 'form': form}, property_fails=False)
                     break
 
-    # (c) key assembly on seeded texts, (e) compound arithmetic
+    # (c) key assembly on seeded texts
     r = ctx.rng('keys')
     lines, expect = [], []
     probe = cfgs[0][4] if isinstance(cfgs[0][4], NumberWithUnitParser) else cfgs[0][4].number_with_unit_parser
@@ -217,24 +248,15 @@ def correspond(ctx):
         keys = _real_unit_keys(text, ns, nl)
         lines.append('ukeys\t%s\t%d\t%d' % (cps(text), ns, nl))
         expect.append(';'.join(cps(k) for k in keys))
-    for _ in range(2000 if ctx.thorough else 400):
-        n = Decimal(r.randint(0, 10 ** r.randint(1, 7))).scaleb(-r.randint(0, 2))
-        m = Decimal(r.randint(0, 999)).scaleb(-r.randint(0, 1))
-        k = r.choice([1, 2, 3, 8])
-        res = Fraction(n) + Fraction(m) / (10 ** k)
-        nt, mt_ = n.as_tuple(), m.as_tuple()
-        lines.append('compound\t%d\t%d\t%d\t%d\t%d' % (int(n.scaleb(-nt.exponent)), -nt.exponent, int(m.scaleb(-mt_.exponent)), -mt_.exponent, k))
-        expect.append(str(res))
     model = common.driver(lines)
-    ctx.count('unit keys / compound arithmetic', len(lines))
+    ctx.count('unit keys', len(lines))
     for l, a, b in zip(lines, expect, model):
-        if l.startswith('compound'):
-            num, scale = b.split(' ')
-            b = str(Fraction(int(num), 10 ** int(scale)))
         if a != b:
             ctx.report('correspondence', l.split('\t')[0], '%s: implementation %s, model %s' % (l, a, b),
                        failing_input={'op': l}, property_fails=False)
 
+    # (e) compound amounts: the REAL BaseCurrencyParser.parse (__merge_compound_unit) vs RTV.Unit.mergeCompound
+    compound_level(ctx, cfgs)
     # (f) the extractor: recorded calls of NumberWithUnitExtractor.extract replayed through RTV.UnitExtract
     extractor_level(ctx, cfgs)
     # (g) the whole NumberWithUnitParser.parse (unit + number part) on what the real extractor hands over
@@ -245,8 +267,11 @@ def correspond(ctx):
     for (mt, cul, pc, exc, parser) in cfgs:
         um = pc.unit_map
         iso_map = getattr(pc, 'currency_name_to_iso_code_map', None) or {}
+        rq = ctx.rng('row-numerals', mt, cul)
         for kind, unit, form in rows_of(exc):
-            for nk, num, val in numerals(cul, ctx.thorough):
+            # quick tier: the numeral 7 on every row, the grouped and the decimal numeral on a seeded tenth of the rows
+            more = ctx.thorough or rq.random() < 0.1
+            for nk, num, val in numerals(cul, more):
                 q = query_for(cul, kind, form, num)
                 jobs.append((mt, cul, kind, unit, form, nk, num, q))
             # a spelling that itself contains a digit ('m2', 'km^3', 'ft2'): the numeral made of that digit — the unit key
@@ -260,16 +285,22 @@ def correspond(ctx):
     for ch, res in zip(chunks, results):
         for j, g in zip(ch, res):
             flat[j] = g
-    exp_by = {(mt, cul): (pc.unit_map, getattr(pc, 'currency_name_to_iso_code_map', None) or {}) for (mt, cul, pc, exc, parser) in cfgs}
+    exp_by = {(mt, cul): (first_listing(exc), pc.unit_map, getattr(pc, 'currency_name_to_iso_code_map', None) or {})
+              for (mt, cul, pc, exc, parser) in cfgs}
     clashes = 0
+    map_vs_table = {}
     for j in jobs:
         (mt, cul, kind, unit, form, nk, num, q) = j
         got = flat[j]
-        um, iso_map = exp_by[(mt, cul)]
-        # theorem unitmap_lookup: the spelling maps to the first row listing it
-        expected_unit = um.get(form)
+        first, um, iso_map = exp_by[(mt, cul)]
+        # the property's expectation comes from the TABLE: the first row (suffix table, then prefix table) listing the spelling
+        # (theorem unitmap_lookup: that is what bind_dictionary binds); the implementation's unit_map is only compared
+        expected_unit = first.get(form)
         if expected_unit != unit:
             clashes += 1
+        if um.get(form) != expected_unit:
+            k_ = '%s:%s' % (cul, mt)
+            map_vs_table[k_] = map_vs_table.get(k_, 0) + 1
         val = nk[6:] if nk.startswith('digit:') else dict((a, c) for a, b, c in numerals(cul, True)).get(nk)
         ok = False
         why = ''
@@ -309,6 +340,7 @@ def correspond(ctx):
                                'expected_value': val, 'got': got if isinstance(got, str) else got[:3]},
                 property_fails=True)
     ctx.extra['spellings_listed_by_an_earlier_row'] = clashes
+    ctx.extra['unit_map_entry_differs_from_first_listing_row'] = map_vs_table
     ctx.sample({'query': jobs[len(jobs) // 3][-1], 'result': flat[jobs[len(jobs) // 3]]})
 
     # ------------------------------------------------------------------ pipeline: compound currency (English spellings)
@@ -330,7 +362,7 @@ def correspond(ctx):
             if not fforms:
                 continue
             ratio = ratios[fname]
-            for N in ([1, 5, 1999] if ctx.thorough else [1, 5]):
+            for N in ([1, 5, 1999, 1234567890123, 123456789012345] if ctx.thorough else [1, 5, 123456789012345]):
                 ms = sorted(set([1, 7, 14, 57, ratio - 1] if ratio > 60 else range(1, ratio)))
                 for M in (ms if ctx.thorough else ms[:4]):
                     if M >= ratio:
@@ -366,7 +398,10 @@ def correspond(ctx):
                 continue
             N, M, ratio = map(int, nmr.split('/'))
             ctx.count('compound currency')
-            want = Fraction(N) + Fraction(M, ratio)
+            # "worth N + M/ratio", to the 15 significant digits the number model resolves (compound_precision_witness)
+            from decimal import Context, ROUND_HALF_EVEN
+            exact = Context(prec=60).divide(Decimal(N * ratio + M), Decimal(ratio))
+            want = Fraction(Context(prec=15, rounding=ROUND_HALF_EVEN).plus(exact))
             ok = False
             why = ''
             if isinstance(got, str) or len(got) != 1 or not got[0][3]:
@@ -397,6 +432,204 @@ def correspond(ctx):
                            property_fails=True)
     if cjobs:
         ctx.sample({'query': cjobs[0][-1]})
+
+
+RATIO_TABLE = {100, 1000, 10, 5, 4, 20, 100000000}      # RTV.Unit.ratioTable (Props/C05Compound.lean)
+
+
+def _dec3(d):
+    t = d.as_tuple()
+    return '%d,%d,%d' % (t.sign, int(''.join(map(str, t.digits)) or '0'), t.exponent)
+
+
+def _tbl(d):
+    f = [str(len(d))]
+    for k, v in d.items():
+        f += [cps(k), cps(str(v))]
+    return f
+
+
+def compound_level(ctx, cfgs):
+    """Unit level for `RTV.Unit.mergeCompound` (audit item 2): hand-built compound extract results (the shape
+    BaseMergedUnitExtractor produces: a SYS_UNIT_CURRENCY result whose `data` is the list of its parts, each part carrying
+    its number) go through the REAL `BaseCurrencyParser.parse` -> `__merge_compound_unit` of every culture's currency
+    configuration; per part the real `NumberWithUnitParser.parse` answer (unit, number / plain value) is recorded and handed
+    to the model, which must return the same list of (start, length, number, unit, ISO code | plain UnitValue) or the same
+    exception class.  Amount grid: main amounts at the 15-digit boundary of the `@precision(prec=15)` context, fraction
+    amounts 0 .. ratio and beyond, every ratio class of the culture's tables (100, 1000, 10, 5)."""
+    from decimal import Decimal, InvalidOperation
+    from recognizers_text.extractor import ExtractResult
+    from recognizers_number_with_unit.number_with_unit.parsers import BaseCurrencyParser, NumberWithUnitParser
+    r = ctx.rng('compound-unit')
+    SYS_CUR, SYS_NUM = 'builtin.unit.currency', 'builtin.num'
+
+    def num_er(text, start):
+        e = ExtractResult()
+        e.start, e.length, e.text, e.type = start, len(text), text, SYS_NUM
+        e.data = 'DoubleNum' if any(c in text for c in '.,') else 'IntegerNum'
+        return e
+
+    def unit_er(num, form, start, typ=SYS_CUR):
+        text = '%s %s' % (num, form)
+        e = ExtractResult()
+        e.start, e.length, e.text, e.type = start, len(text), text, typ
+        e.data = num_er(num, 0)
+        return e
+
+    def simple_forms(tbl, name):
+        return [f for f in (tbl.get(name) or '').split('|') if f and f.isascii() and f.replace(' ', '').isalpha()]
+
+    lines, impl, meta = [], [], []
+    hist = {}
+    for (mt, cul, pc, exc, parser) in cfgs:
+        if mt != 'CurrencyModel' or cul in CJK:
+            continue
+        name_iso = pc.currency_name_to_iso_code_map or {}
+        code_list = pc.currency_fraction_code_list or {}
+        ratios = pc.currency_fraction_num_map or {}
+        mapping = pc.currency_fraction_mapping or {}
+        suffix = exc.suffix_list or {}
+        dm = ',' if cul not in ('en-us', 'es-mx') else '.'
+        pairs = []
+        for main, iso in name_iso.items():
+            mf = simple_forms(suffix, main)
+            if not mf:
+                continue
+            codes = (mapping.get(iso) or '').split('|')
+            for fname, code in code_list.items():
+                ff = simple_forms(suffix, fname)
+                if code in codes and ff and ratios.get(fname):
+                    pairs.append((main, mf[-1], fname, ff[-1], ratios[fname]))
+        by_ratio = {}
+        for pr_ in pairs:
+            by_ratio.setdefault(pr_[4], []).append(pr_)
+        chosen = []
+        for ratio, ps in sorted(by_ratio.items()):
+            chosen += ps if ctx.thorough else (ps[:2] + r.sample(ps[2:], max(0, min(2, len(ps) - 2))))
+        # a main unit the tables give no ISO code (or a fake one), a fraction unit of another currency
+        no_iso = [(u, simple_forms(suffix, u)[-1]) for u in suffix if not name_iso.get(u) and u not in code_list and simple_forms(suffix, u)][:2]
+        fake = [(u, simple_forms(suffix, u)[-1]) for u, c in name_iso.items() if c.startswith('_') and simple_forms(suffix, u)][:2]
+        ctx.extra.setdefault('compound_ratio_classes', {})[cul] = {str(k): len(v) for k, v in sorted(by_ratio.items())}
+        for fname_, ratio_ in ratios.items():
+            if ratio_ and ratio_ not in RATIO_TABLE:
+                ctx.report('correspondence', 'compound-ratio-unlisted', '%s: currency_fraction_num_map[%r] = %r is not a ratio of '
+                           'RTV.Unit.ratioTable (compound_value_exact does not speak about it)' % (cul, fname_, ratio_),
+                           failing_input={'culture': cul, 'fraction_unit': fname_, 'ratio': ratio_})
+        bparser = BaseCurrencyParser(pc)
+        nparser = NumberWithUnitParser(pc)
+        big = ['1', '5', '1999', '0', '1000000000000', '9999999999999', '10000000000000', '99999999999999', '123456789012345',
+               '999999999999999', '1000000000000000', '1234567890123456', '1' + dm + '5', '0' + dm + '5', '12345678901234' + dm + '5']
+        small = ['0', '1', '14', '57', '99', '250', '2' + dm + '5']
+        cases = []
+        for (main, mf, fname, ff, ratio) in chosen:
+            ns = big if (ctx.thorough or ratio != 100) else big[:3] + r.sample(big[3:], 5)
+            for N in ns:
+                for M in (small + [str(ratio - 1), str(ratio)] if ctx.thorough else r.sample(small, 3) + [str(ratio - 1)]):
+                    cases.append(('pair', [('u', N, mf), ('u', M, ff)]))
+            cases.append(('main+num', [('u', '5', mf), ('n', '3')]))
+            cases.append(('main+num', [('u', '123456789012345', mf), ('n', '3')]))
+            cases.append(('main+frac+frac', [('u', '5', mf), ('u', '3', ff), ('u', '4', ff)]))
+            cases.append(('frac-first', [('u', '3', ff), ('u', '5', mf)]))
+            cases.append(('num-first', [('n', '7'), ('u', '5', mf), ('u', '3', ff)]))
+            cases.append(('two-groups', [('u', '5', mf), ('u', '3', ff), ('u', '7', mf), ('u', '9', ff)]))
+            cases.append(('main-main', [('u', '5', mf), ('u', '7', mf), ('u', '9', ff)]))
+            other = next((p_ for p_ in pairs if p_[0] != main and p_[2] != fname and
+                          code_list[p_[2]] not in (mapping.get(name_iso[main]) or '').split('|')), None)
+            if other:
+                cases.append(('foreign-fraction', [('u', '5', mf), ('u', '3', other[3]), ('u', '2', ff)]))
+            for (u, f_) in no_iso:
+                cases.append(('no-iso-main', [('u', '5', f_), ('u', '3', ff), ('u', '7', mf), ('u', '1', ff)]))
+                cases.append(('no-iso-main-stale', [('u', '5', f_), ('u', '0', mf), ('u', '1', ff)]))
+            for (u, f_) in fake:
+                cases.append(('fake-iso-main', [('u', '5', f_), ('u', '3', ff)]))
+        ci = pc.culture_info
+        for kind, parts in cases:
+            subs, pos = [], 0
+            for p_ in parts:
+                if p_[0] == 'u':
+                    e = unit_er(p_[1], p_[2], pos)
+                else:
+                    e = num_er(p_[1], pos)
+                subs.append(e)
+                pos += e.length + 1
+            comp = ExtractResult()
+            comp.text = ' '.join(e.text for e in subs)
+            comp.start, comp.length, comp.type, comp.data = 0, len(comp.text), SYS_CUR, subs
+            items, bad_decimal = [], False
+            for e in subs:
+                pr = nparser.parse(e)
+                v = pr.value
+                is_num = e.type == SYS_NUM
+                has_value = bool(v) and hasattr(v, 'unit')
+                unit = getattr(v, 'unit', None) if v else None
+                number = plain = 'none'
+                if has_value and v.number:
+                    try:
+                        number = _dec3(Decimal(v.number))
+                    except InvalidOperation:
+                        bad_decimal = True
+                if is_num:
+                    try:
+                        plain = _dec3(Decimal(str(v)))
+                    except InvalidOperation:
+                        bad_decimal = True
+                items += ['1' if e.type == SYS_CUR else '0', '1' if is_num else '0', str(e.start), str(e.length),
+                          '1' if has_value else '0', cps(unit) if unit is not None else 'none', number, plain]
+            try:
+                ret = bparser.parse(comp)
+                out = []
+                for x in ret.value:
+                    val = x.value
+                    out.append('%d:%d:%s:%s:%s' % (x.start, x.length, cps(val.number) if val.number is not None else 'None',
+                                                   cps(val.unit) if val.unit is not None else 'None',
+                                                   cps(val.iso_currency) if hasattr(val, 'iso_currency') and val.iso_currency is not None
+                                                   else 'none'))
+                got = ';'.join(out)
+            except Exception as x:
+                got = 'err:' + type(x).__name__
+            hist[kind] = hist.get(kind, 0) + 1
+            if bad_decimal:
+                # `Decimal('5,5')`: the number string is printed with the culture's decimal mark, Decimal() cannot read it
+                # back — the real method raises; the extractor never merges a decimal main amount, so the pipeline
+                # cannot reach it; counted, not compared
+                hist['Decimal(number) raises InvalidOperation (%s)' % got] = hist.get('Decimal(number) raises InvalidOperation (%s)' % got, 0) + 1
+                continue
+            lfs = lf_of(ci)
+            lines.append('\t'.join(['uc.merge', '15', lfs] + _tbl(name_iso) + _tbl(mapping) + _tbl(code_list) + _tbl(ratios) +
+                                   [str(len(subs))] + items))
+            impl.append(got)
+            meta.append((cul, kind, comp.text))
+    model = common.driver(lines) if lines else []
+    ctx.count('BaseCurrencyParser.__merge_compound_unit (real method vs RTV.Unit.mergeCompound)', len(lines))
+    for (cul, kind, text), a, b in zip(meta, impl, model):
+        if a and not a.startswith('err'):
+            ctx.nontriv(('uc', cul, text))
+        if a != b:
+            ctx.report('correspondence', 'merge-compound-unit', '%s %s: BaseCurrencyParser.parse(%r): implementation %s, model %s' % (
+                cul, kind, text, show_merge(a), show_merge(b)),
+                failing_input={'op': 'BaseCurrencyParser.__merge_compound_unit', 'culture': cul, 'kind': kind, 'text': text,
+                               'implementation': a, 'model': b}, property_fails=False)
+    ctx.extra['compound_unit_cases'] = hist
+    if lines:
+        k = len(lines) // 2
+        ctx.sample({'op': 'BaseCurrencyParser.parse (compound)', 'text': meta[k][2], 'culture': meta[k][0], 'implementation': show_merge(impl[k])})
+
+
+def show_merge(s):
+    if s.startswith('err') or not s:
+        return s
+    out = []
+    for f in s.split(';'):
+        a, b, n, u, i = f.split(':')
+        out.append((int(a), int(b), None if n == 'None' else uncps(n), None if u == 'None' else uncps(u), None if i == 'none' else uncps(i)))
+    return repr(out)
+
+
+def lf_of(ci):
+    """the long format `CultureInfo.format` uses: `<decimals mark>,<thousands mark>` (code points), `none` without one"""
+    from recognizers_number.culture import SUPPORTED_CULTURES
+    lf = SUPPORTED_CULTURES.get(ci.code) if ci is not None else None
+    return '%d,%d' % (ord(lf.decimals_mark), ord(lf.thousands_mark)) if lf else 'none'
 
 
 def extractor_level(ctx, cfgs):
